@@ -242,8 +242,15 @@ def run_pass(world, pspec, vector):
     def on_quiescent(k):
         check_global(f"quiescent(after T:{k}:{sched.opidx[k]})", False)
 
-    sched = Scheduler(nthreads, policy, cap=sch.get("cap", 200_000), observer=observer if nobs else None,
-                      observe_at=observe_at, on_quiescent=None if serial_like else on_quiescent)
+    obs_every = sch.get("observe_mut", 0 if serial_like else 1)
+    osites = frozenset()
+    if obs_every and not serial_like:
+        from . import sites as _sites
+
+        osites = frozenset(_sites.get()["mut"])
+    sched = Scheduler(nthreads, policy, cap=sch.get("cap", 200_000), observer=observer if (nobs or osites) else None,
+                      observe_at=observe_at, on_quiescent=None if serial_like else on_quiescent,
+                      observe_sites=osites, observe_every=obs_every)
 
     def body(k):
         sched.atomic[k] += 1
